@@ -50,6 +50,11 @@ CLAIMS = {
   note="prepareDevServer (no listening) and launchDevServer are trusted summaries over running(); net/http Shutdown/Close trusted; fsnotify delivery, debounce and port re-binding timing not modelled; compiler/server interfaces of pkg/hotreload trusted through ghost predicates. One genuine defect found and repaired: startServer shut the running server down before reading the new source, so any failing edit left nothing listening.",
   technique="contract-based deductive verification: monitor invariant over a ghost predicate, trusted effect summaries, call-site preconditions with ghost counters, structural call confinement",
   design="§5 C19"),
+ "C14": dict(
+  text="Deductive proof of the commit/rollback protocol of SQLiteDB/PostgresDB/MySQLDB.Transaction over the ghost state machine txstate(tx): on every exit the transaction is no longer open; it is committed exactly when the callback returned nil and Commit succeeded, rolled back when the callback returned an error, and - with a panic modelled as an alternative outcome of the callback call that unwinds through the deferred closure with recover() != nil - rolled back before the panic propagates (the closure itself is proved to roll back and re-panic). ORM statements are proved to run on the transaction carried by the context whenever there is one (helpers + structural confinement of direct Database calls). BulkInsert is proved to issue at most one statement, and exactly one on success.",
+  note="database/sql Commit/Rollback and the engines' atomicity are assumed (trusted contracts); the callback is assumed not to finish the transaction itself; cancelled contexts not modelled; ORM.Transaction exists for PostgresDB only. One genuine defect found and repaired: ORM calls inside ORM.Transaction ran outside the transaction (nothing read the context key) and survived its rollback.",
+  technique="contract-based deductive verification: ghost state machine for *sql.Tx, panic/recover unwinding in the VC generator, call-site preconditions, ghost statement counter",
+  design="§5 C14"),
 }
 
 def main():
